@@ -2,7 +2,8 @@ import BluetoeModel.Sm.Model
 /-!
   Specification side of C32 / C33 / C34: the table of protocol positions (`AcceptedAt`), and the
   *ghost* that is computed from the observable history only (operations and their outputs; for
-  the value of a key additionally the secrets of the state *before* the completing step).
+  the value of a key additionally the temporary key of a legacy pairing and the key pair the tool
+  box returned when the Pairing Public Key was answered).
   Nothing in this file is executed by the driver.
 -/
 namespace BluetoeModel.Sm
